@@ -48,10 +48,11 @@ func TestMain(m *testing.M) {
 			"Non-trivial = a probed/dialled/accepted remote matches a rule in force through a non-canonical form (mapped spelling, 16-byte rule vs 4-byte remote, subnet edge, host-bit subnet, resolved DNS name) "+
 			"or the case contains a reopen on a non-empty rule set; distinct = distinct (pool, op history, attempts).",
 		"the datastore double applies every write atomically and either applies it or fails it (no 'applied but reported failed' mode); read failures are not injected",
-		"rule identity of subnets is ambiguous in the statement (textual IPNet vs the set of addresses): where Block and Unblock of one subnet were written in different textual forms "+
-			"and the two readings disagree, no verdict is asserted for that subnet",
+		"a subnet is identified by the set of addresses it covers (IP masked by Mask), not by the spelling of the IPNet value: the last successful Block/Unblock of that set decides "+
+			"(known finding "+kfHostBits+": while listed as known, an Unblock spelled differently from a Block still on record gives no verdict for that subnet)",
+		"masks that are not CIDR prefixes are generated rarely (net.IPNet allows them, Contains honours them; known finding "+kfMask+" removes them from the generator while listed as known)",
 		"whether an IPv6 subnet shorter than /96 that covers ::ffff:0:0/96 (e.g. ::/0) matches IPv4 remotes is left unspecified; all textual forms of one IP must still agree",
-		"subnet masks are contiguous (CIDR); IP values have length 4 or 16",
+		"IP values have length 4 or 16; a Block*/Unblock* call that returns an error leaves the model unchanged whatever the reason",
 		"inbound forms are those a net.Addr can produce plus hand-built /ip6/::ffff: multiaddrs; WebTransport and WebRTC listeners' own call sites are not driven",
 		"a relay (p2p-circuit) address whose relay IP is blocked may or may not be refused (the remote is the peer behind the relay)",
 	)
@@ -156,8 +157,8 @@ func (a nip) step(up bool) (nip, bool) {
 
 // net.IP value forms handed to BlockAddr / used as conn source addresses.
 const (
-	formNatural = iota // 4 bytes for v4, 16 bytes for v6
-	formMapped16       // 16 bytes ::ffff:a.b.c.d (v4 only; same as natural for v6)
+	formNatural  = iota // 4 bytes for v4, 16 bytes for v6
+	formMapped16        // 16 bytes ::ffff:a.b.c.d (v4 only; same as natural for v6)
 	nIPForms
 )
 
@@ -335,6 +336,9 @@ type subState struct {
 	texts     map[string]bool // textual identities currently blocked (reading 1)
 	lastBlock bool            // last successful call on this address set was a Block (reading 2)
 }
+
+// mixed: an Unblock spelled differently from a Block that is still on record.
+func (st *subState) mixed() bool { return (len(st.texts) > 0) != st.lastBlock }
 
 // Known findings of C10 (see witness_test.go).
 const (
@@ -744,6 +748,15 @@ func drawWorld(rt *rapid.T) *world {
 	return w
 }
 
+func (w *world) nonCIDR() bool {
+	for _, s := range w.subs {
+		if s.bits < 0 {
+			return true
+		}
+	}
+	return false
+}
+
 func (w *world) fingerprint() string {
 	var b strings.Builder
 	for _, s := range w.subs {
@@ -837,7 +850,7 @@ type failer interface {
 // obs collects what a comparison saw (for the non-trivial rule / labels).
 type obs struct {
 	noncanonBlocked, edgeBlocked, edgeFree, mappedRuleHit, unspecified, ambiguous bool
-	blockedProbes, freeProbes                                                     int
+	blockedProbes, freeProbes, refusedCalls                                       int
 }
 
 // checkGater compares g with every model state between lo and hi (lo == hi: exact).
@@ -920,7 +933,7 @@ func checkGater(f failer, what string, g *conngater.BasicConnectionGater, w *wor
 		if stHi != nil {
 			v2 = stHi.state()
 		}
-		if v == either || v2 == either {
+		if (stLo != nil && stLo.mixed()) || (stHi != nil && stHi.mixed()) {
 			o.ambiguous = true
 		}
 		v = join(v, v2)
